@@ -49,4 +49,107 @@ theorem packFiles_spec {P : Params} (hP : P.ans = serialAns) (hc : CodecOk P.cod
       · simp only [feFiles, feFile]
         rw [if_pos (by simpa using hfl)]
 
+/-! ### `finish` -/
+
+/-- after a drain with no open data block: nothing is left in the pool or in `io_queue` -/
+theorem PInv.drained {P : Params} {s : Proc} {g : Ghost} {W : WSt} (h : PInv P s g 0 W) (hcur : s.blkCurrent = none)
+    (hpost : s.backlog = 0 ∨ mustWait s = false) :
+    g.items = [] ∧ s.ioQueue = [] ∧ s.backlog = boolNat s.fragBlock.isSome := by
+  have hac := h.acct
+  unfold Acct at hac
+  simp only [hcur, Option.isSome_none, boolNat, Bool.false_eq_true, if_false, Nat.add_zero] at hac
+  have key : g.items.length + s.ioQueue.length = 0 := by
+    rcases hpost with h0 | hmw
+    · omega
+    · unfold mustWait at hmw
+      simp only [hcur, Option.isSome_none, Bool.or_false, Bool.and_false, Bool.not_false, Bool.and_true] at hmw
+      cases hf : s.fragBlock.isSome
+      · simp [hf] at hmw
+      · simp only [hf, Bool.and_true, Bool.not_eq_false', beq_iff_eq] at hmw
+        simp only [hf, if_true] at hac
+        omega
+  have h1 : g.items = [] := List.eq_nil_of_length_eq_zero (by omega)
+  have h2 : s.ioQueue = [] := List.eq_nil_of_length_eq_zero (by omega)
+  refine ⟨h1, h2, ?_⟩
+  rw [h1, h2] at hac
+  simpa [boolNat] using hac
+
+theorem close_opn (P : Params) (F : FSt) : (F.close P).opn = none := by
+  unfold FSt.close; split <;> simp_all
+
+theorem close_of_opn_none (P : Params) (F : FSt) (h : F.opn = none) : F.close P = F := by
+  unfold FSt.close; rw [h]
+
+theorem Back.setFin {P : Params} {s : Proc} {g : Ghost} {F : FSt} {W : WSt} (h : Back P s g F W) (b : Bool) :
+    Back P s { g with fin := b } F W := { h with }
+
+theorem finish_ok {P : Params} (hP : P.ans = serialAns) (hc : CodecOk P.codec) (hB : P.B < 2 ^ 24)
+    {s : Proc} {g : Ghost} {W : WSt} (h : PInv P s g 0 W) (hfe : FrontInv P.B s.fe g.front s.w.inodes.length)
+    (hidle : s.beginCalled = false) (hfin : g.fin = false) :
+    ∃ s' g' W', finish P s = .ok s' ∧ PInv P s' g' 0 W' ∧ g'.items = [] ∧ s'.ioQueue = [] ∧ s'.backlog = 0 ∧
+      g'.front = g.front ∧ g'.fe = g.fe ∧ s'.w.inodes.length = s.w.inodes.length ∧
+      g'.F P = (fRun P {} (g.front.map (processBlock P))).close P := by
+  obtain ⟨_, hcur0, hopen0⟩ := hfe.idle hidle
+  have hcur : s.blkCurrent = none := hcur0
+  obtain ⟨s1, g1, W1, hs1, h1, fr1, hpost1⟩ := sync_ok hP hc hB h
+  have hcur1 : s1.blkCurrent = none := by rw [blkCurrent_of_fe fr1.fe]; exact hcur
+  obtain ⟨hi1, hq1, hb1⟩ := h1.drained hcur1 hpost1
+  have hfin1 : g1.fin = false := by rw [fr1.fin]; exact hfin
+  have hpend1 : g1.pend = [] := by rw [← h1.back.pend, hi1]; rfl
+  have hdone1 : g1.done = g.front.map (processBlock P) := by
+    have := h1.back.worked
+    rw [hpend1, List.append_nil, fr1.front] at this
+    exact this
+  have hF1 : g1.F P = fRun P {} (g.front.map (processBlock P)) := by
+    unfold Ghost.F; rw [hfin1, hdone1]; rfl
+  unfold finish
+  rw [hs1]
+  simp only
+  cases hfb : s1.fragBlock with
+  | none =>
+    simp only
+    refine ⟨s1, g1, W1, rfl, h1, hi1, hq1, ?_, fr1.front, fr1.gfe, fr1.inodes, ?_⟩
+    · rw [hb1, hfb]; rfl
+    · have hop : (g1.F P).opn = none := by rw [← h1.back.fragBlock]; exact hfb
+      rw [← hF1, close_of_opn_none P _ hop]
+  | some fb =>
+    simp only
+    have hop : (g1.F P).opn = some fb := by rw [← h1.back.fragBlock]; exact hfb
+    have ho : g1.done.foldl fOpen false = false := by
+      rw [hdone1, foldl_fOpen_worked]; exact hopen0
+    obtain ⟨s2, he, f1, f2, f3, f4, f5, hb2⟩ := h1.back.closeFrag hP fb hop ho
+    rw [he]
+    simp only
+    have hcur2 : s2.blkCurrent = none := by rw [blkCurrent_of_fe f1]; exact hcur1
+    have hF2 : ({ g1 with items := g1.items ++ [processBlock P (fb.withSeq (g1.F P).stream.length)], fin := true } : Ghost).F P
+        = (g1.F P).close P := by
+      unfold Ghost.F
+      simp only [if_true, hfin1, Bool.false_eq_true, if_false]
+    have h2 : PInv P s2 { g1 with items := g1.items ++ [processBlock P (fb.withSeq (g1.F P).stream.length)], fin := true } 0 W1 := by
+      refine PInv.intro _ hF2 (hb2.setFin true) ?_ (fun _ => hpend1)
+      have := Acct.closeFrag (k := boolNat s1.blkCurrent.isSome + 0) h1.acct (by rw [hfb]; rfl)
+        (processBlock P (fb.withSeq (g1.F P).stream.length)) f2 f3 f4
+      rw [hcur2]; rw [hcur1] at this
+      exact this
+    obtain ⟨s3, g3, W3, hs3, h3, fr3, hpost3⟩ := sync_ok hP hc hB h2
+    have hcur3 : s3.blkCurrent = none := by rw [blkCurrent_of_fe fr3.fe]; exact hcur2
+    obtain ⟨hi3, hq3, hb3⟩ := h3.drained hcur3 hpost3
+    have hfin3 : g3.fin = true := fr3.fin
+    have hpend3 : g3.pend = [] := fr3.pendNil hpend1
+    have hdone3 : g3.done = g.front.map (processBlock P) := by
+      have := h3.back.worked
+      rw [hpend3, List.append_nil, fr3.front] at this
+      rw [this]
+      show List.map (processBlock P) g1.front = _
+      rw [fr1.front]
+    have hF3 : g3.F P = (fRun P {} (g.front.map (processBlock P))).close P := by
+      unfold Ghost.F; rw [hfin3, hdone3]; rfl
+    have hfb3 : s3.fragBlock = none := by
+      rw [h3.back.fragBlock, hF3]; exact close_opn P _
+    refine ⟨s3, g3, W3, hs3, h3, hi3, hq3, ?_, ?_, ?_, ?_, hF3⟩
+    · rw [hb3, hfb3]; rfl
+    · rw [fr3.front]; exact fr1.front
+    · rw [fr3.gfe]; exact fr1.gfe
+    · rw [fr3.inodes, enqueueBlock_w he]; exact fr1.inodes
+
 end Sqfs.BlockProc
